@@ -29,10 +29,12 @@ ASSUMPTIONS = ["Rust semantics of Vec/usize as modelled (checked indexing, debug
                "f64::powf(|v|, 2.0) modelled as |v|*|v| (tie by tolerance 1e-12, not bit identity)",
                "the sampled cases are where model and code were compared; the theorems are about the model"]
 UNPROVED = ["floating-point accuracy of interpolation / quadrature (theorems are over R; the float instance is tied bit-for-bit and searched)",
-            "file formatting itself (only the token layout and parse-after-format are modelled)"]
+            "file formatting itself (only the token layout and parse-after-format are modelled). read_layout_roundtrip assumes parse (fmt x) = Ok x for every x: the real "
+            "formatter ({:.Ne}) satisfies that only for values that survive printing with N digits; for other values the implementation returns the mesh rounded to the printed "
+            "precision, which the executor's file round trip checks at run time (written file re-read, compared with the values re-parsed from the printed tokens)"]
 
 MANIFEST = dict(
-    text=("33 theorems about the Gallina model of src/mesh1d.rs / src/mesh2d.rs (storage as the code stores it: node (i,j) at i*ny+j; every "
+    text=("%d theorems about" % ntheorems("C19") + " the Gallina model of src/mesh1d.rs / src/mesh2d.rs (storage as the code stores it: node (i,j) at i*ny+j; every "
           "Vec access and usize subtraction checked; all sizes, all values). Any arithmetic, any coordinate type, closed under the global "
           "context: get-after-set for the guarded accessors and the index operators through the i*ny+j bijection (injective and onto), "
           "cross-sections in both directions, var_as_matrix, assign, apply, out-of-range rejection, and refinement of ANY sequence of valid "
